@@ -62,7 +62,12 @@ Definition decode_vli_into_mutable (b : bytes) : outcome (N * bytes) :=
   | VliValue v rest => Ok (v, rest)
   end.
 
-(* ---- decode.rs 413-431 decode_length_prefixed_string ---- *)
+(* `str::contains('\0')` on the result of a successful `from_utf8`: in well-formed UTF-8 the only
+   code point whose encoding contains a zero byte is U+0000 itself, so the test is "some byte is 0"
+   (fix a42e3b8, MQTT-1.5.4-2: a decoded string containing U+0000 is a decoding failure). *)
+Definition str_contains_nul (s : bytes) : bool := existsb (fun x => x =? 0) s.
+
+(* ---- decode.rs 413-436 decode_length_prefixed_string ---- *)
 Definition decode_length_prefixed_string (b : bytes) : outcome (bytes * bytes) :=
   if len b <? 2 then dfail else
   do h <- slice_to 10 2 b;
@@ -71,10 +76,11 @@ Definition decode_length_prefixed_string (b : bytes) : outcome (bytes * bytes) :
   if len mutable_bytes <? value_length then dfail else
   do s <- slice_to 13 value_length mutable_bytes;
   if negb (utf8_ok s) then dfail else
+  if str_contains_nul s then dfail else
   do rest <- slice_from 14 value_length mutable_bytes;
   Ok (s, rest).
 
-(* ---- decode.rs 433-457 decode_optional_length_prefixed_string ---- *)
+(* ---- decode.rs 438-467 decode_optional_length_prefixed_string ---- *)
 Definition decode_optional_length_prefixed_string (b : bytes) (value : option bytes) : outcome (option bytes * bytes) :=
   if len b <? 2 then dfail else
   match value with Some _ => dfail | None =>
@@ -84,6 +90,7 @@ Definition decode_optional_length_prefixed_string (b : bytes) (value : option by
   if len mutable_bytes <? value_length then dfail else
   do s <- slice_to 18 value_length mutable_bytes;
   if negb (utf8_ok s) then dfail else
+  if str_contains_nul s then dfail else
   do rest <- slice_from 19 value_length mutable_bytes;
   Ok (Some s, rest)
   end.
